@@ -755,3 +755,45 @@ func (f *Flat) NodeContaining(x ast.Node) int {
 	}
 	return res
 }
+
+// Origins follows an expression back through plain variable copies (reaching definitions, including the synthetic
+// bindings of spliced-in helpers) and returns the expressions the value can come from: calls, literals,
+// parameters (identifiers without a definition in the graph), field reads.
+func (f *Flat) Origins(node int, e ast.Expr) []ast.Expr {
+	info := f.Pkg.TypesInfo
+	var res []ast.Expr
+	seen := map[string]bool{}
+	var walk func(node int, e ast.Expr, depth int)
+	walk = func(node int, e ast.Expr, depth int) {
+		e = ast.Unparen(e)
+		id, ok := e.(*ast.Ident)
+		if !ok || depth > 8 {
+			res = append(res, e)
+			return
+		}
+		o := objOf(info, id)
+		if o == nil {
+			res = append(res, e)
+			return
+		}
+		k := fmt.Sprintf("%d/%p", node, o)
+		if seen[k] {
+			return
+		}
+		seen[k] = true
+		defs := f.ReachingDefs(node, o)
+		if len(defs) == 0 {
+			res = append(res, e)
+			return
+		}
+		for _, d := range defs {
+			if d.Rhs == nil {
+				res = append(res, e)
+				continue
+			}
+			walk(d.Node, d.Rhs, depth+1)
+		}
+	}
+	walk(node, e, 0)
+	return res
+}
